@@ -94,7 +94,14 @@ def run(ctx):
                 argvs.append(["name from t where %s %s %s" % (col, op, lit)])
     for extra in (["-c"], ["-i"] * 0 + ["--config"], ["-c", "nonexistent.toml", "name", "from", "t"], [""], [" "], ["'"], ['"unterminated'], ["name", "into"], ["name", "limit"],
                   ["name from t order by 0"], ["name from t order by 2"], ["name from t order by desc"], ["name from t group by"], ["name from t where size =< 3"], ["/"], ["*", "/", "name"],
-                  ["(" * 200 + "name"], ["lower(" * 150 + "name" + ")" * 150 + " from t"], ["asc " * 500 + "name from t"]):
+                  ["(" * 200 + "name"], ["lower(" * 150 + "name" + ")" * 150 + " from t"], ["asc " * 500 + "name from t"],
+                  # result-computation time: literal and unknown-word keys, keys that are not selected, extreme values
+                  ["count(*) from t group by 1"], ["count(*), ext from t group by ext, 1"], ["sum(size) from t group by total"], ["count(*) from t group by ''"],
+                  ["count(*) from t group by ext order by 3"], ["max(size) from t group by is_dir order by name"], ["name from 't/[a' 'regexp'"], ["name from t/[a regexp"],
+                  ["-rand(-9223372036854775808, -9223372036854775807) from t limit 1"], ["sum(size * 4611686018427387904), avg(size * 4611686018427387904) from t"],
+                  ["name from t order by 10 - length(name)"], ["min(name), max(''), avg(name), sum(name), var_pop(name), stddev_samp(name) from t"],
+                  ["name, size from t order by size - 99999999999999999999"], ["substr(name, -100), substr(name, 100, 100) from t"],
+                  ["format_size(size, '%.65536k'), format_size(-1, ''), format_size(size, 'zz') from t"]):
         argvs.append(extra)
 
     # never let a generated vector walk the real file system: keep only vectors all of whose search roots
